@@ -63,15 +63,18 @@ def check_rw(item, acc):
     except Exception as e:
         bad("stationary_state/exception", "raised %s: %s" % (type(e).__name__, e))
     starts = [np.eye(n)[i] for i in range(n)] + [np.ones(n) / n]
+    # a start concentrated on one node given with an integer dtype, and one with float32 entries, are probability vectors too
+    starts += [np.eye(n, dtype=int)[n - 1], np.eye(n, dtype=np.float32)[0]]
     for s in starts:
         for T in (0, 1, 3):
             acc.evaluations += 1
+            tol = 1e-12 if s.dtype != np.float32 else 1e-6
             try:
                 dl = RW.random_walk_density(h, s.copy(), T)
                 ok = len(dl) == T + 1 and np.abs(np.asarray(dl[0]).reshape(-1) - s).max() < 1e-15
                 for a, b in zip(dl, dl[1:]):
                     a, b = np.asarray(a).reshape(-1), np.asarray(b).reshape(-1)
-                    ok = ok and np.abs(a @ Kd - b).max() < 1e-12 and abs(b.sum() - 1) < 1e-12
+                    ok = ok and np.abs(a @ Kd - b).max() < tol and abs(b.sum() - 1) < tol
                 if not ok:
                     bad("random_walk_density", "start %r T=%d: %r" % (s.tolist(), T, [np.asarray(d).tolist() for d in dl]))
             except Exception as e:
